@@ -466,6 +466,8 @@ def check_c18(rng, n):
                 h.close()
             if i % 3 == 0:
                 c18_overlap(rng, res)
+            if i % 3 == 1:
+                c18_overlap_h2c(rng, res)
     finally:
         drv.close()
     return res
@@ -531,12 +533,84 @@ def c18_overlap(rng, res):
         h.close()
 
 
+def c18_overlap_h2c(rng, res):
+    """Two hot->cold moves in flight at once (the buffer loop starts one per step): each observation must end
+    up stored in exactly one tier, free space adjusted by exactly the sizes moved, nothing lost on the way."""
+    hot_rate, cold_rate = rng.choice([2, 4, 5, 10]), rng.choice([1, 2, 4, 5, 10])
+    s1, s2, s3 = rng.choice([5, 12, 30]), rng.choice([5, 12, 20]), rng.choice([0, 5])
+    hot_cap = s1 + s2 + s3 + rng.choice([0, 10])
+    cold_cap = s1 + s2 + rng.choice([0, 5, 50])
+    gap = rng.choice([1, 2])
+    spec = {"machines": [{"id": "m0", "flops": 10, "bw": 2}], "system_bandwidth": 1, "total_arrays": 4,
+            "max_ingest": 1, "observations": [{"name": nm, "start": 0, "duration": 1, "demand": 1, "rate": 1,
+                                               "ingest_demand": 1, "workflow": {"nodes": [{"id": 0, "comp": 10}], "edges": []}}
+                                              for nm in "bcd"],
+            "hot": {"capacity": hot_cap, "rate": hot_rate}, "cold": {"capacity": cold_cap, "rate": cold_rate},
+            "timestep": "seconds", "planning": "batch", "scheduling": {"kind": "queue"}, "delay": None}
+    inp = {"scenario": "overlapping-h2c", "sizes": [s1, s2, s3], "hot_cap": hot_cap, "cold_cap": cold_cap,
+           "hot_rate": hot_rate, "cold_rate": cold_rate, "gap": gap}
+    h = runsim.SimHandle(spec)
+    try:
+        buf, env = h.sim.buffer, h.env
+        hot, cold = buf.hot[0], buf.cold[0]
+        B, C, D = h.sim.instrument.observations
+        for o, sz in ((B, s1), (C, s2), (D, s3)):
+            o.total_data_size = sz
+        hot.observations["stored"] += ([D, B, C] if s3 else [B, C])
+        hot.current_capacity -= s1 + s2 + s3
+        tot0 = hot.current_capacity + cold.current_capacity
+        p1 = env.process(buf.move_hot_to_cold(0))      # moves C (the last stored)
+        env.run(until=env.now + gap)
+        p2 = env.process(buf.move_hot_to_cold(0))      # moves B while C is in flight
+        bad = []
+        for _ in range(500):
+            if p1.triggered and p2.triggered:
+                break
+            try:
+                env.run(until=env.now + 1)
+            except Exception as e:   # noqa
+                bad.append("raised %s" % errname(e))
+                break
+            if hot.current_capacity + cold.current_capacity != tot0:
+                bad.append("hot+cold free space changed during the moves")
+                break
+        res["evaluations"] += 1
+        acc1 = p1.triggered and p1.value is True
+        acc2 = p2.triggered and p2.value is True
+        bump(res["dist"], "h2c-overlap-both" if (acc1 and acc2) else "h2c-overlap-one")
+        if acc1 and acc2:
+            res["nontrivial"] += 1
+        where = lambda o: int(o in hot.observations["stored"]) + int(o in cold.observations["stored"])
+        if not bad and p1.triggered and p2.triggered:
+            if where(B) != 1 or where(C) != 1:
+                bad.append("an observation is stored in %d / %d tiers (want 1 / 1)" % (where(B), where(C)))
+            if (C in cold.observations["stored"]) != acc1 or (B in cold.observations["stored"]) != acc2:
+                bad.append("an accepted move did not leave its observation in the cold tier")
+            if hot.observations["transfer"] is not None or cold.observations["transfer"] is not None:
+                bad.append("transfer slot still occupied after both moves ended")
+            want_cold = cold_cap - (s2 if acc1 else 0) - (s1 if acc2 else 0)
+            if cold.current_capacity != want_cold:
+                bad.append("cold free space %s, want %s" % (fr(cold.current_capacity), want_cold))
+        for b_ in bad:
+            res["violations"].append({"prop": "C18", "kind": "overlapping-moves-end-state", "sig": "tier-move-overlap:" + b_.split()[0],
+                                      "detail": b_, "input": inp})
+    finally:
+        h.close()
+
+
 # ---------------------------------------------------------------- C14
 def check_c14(rng, n):
     import networkx as nx
     res = result()
     for i in range(n):
         wf = simgen.gen_workflow(rng, max_nodes=8, speeds=(10,))
+        if rng.random() < 0.3:
+            # fractional (binary-exact) demands must be copied as they are
+            for nd in wf["nodes"]:
+                if rng.random() < 0.6:
+                    nd["comp"] = nd["comp"] + rng.choice([0.5, 0.25])
+                if rng.random() < 0.3:
+                    nd["task_data"] = rng.choice([0.5, 2.5, 7.75])
         name = rng.choice(["a", "obs1", "emu"])
         spec = {"machines": [{"id": "m0", "flops": 10, "bw": 2}], "system_bandwidth": 1, "total_arrays": 4,
                 "max_ingest": 1, "observations": [{"name": name, "start": 0, "duration": 2, "demand": 1, "rate": 1,
